@@ -3,6 +3,7 @@
    symmetric-matrix facts. *)
 From mathcomp Require Import all_ssreflect all_algebra.
 From mathcomp Require Import ring.
+From Verif.lib Require Import MatOps MatMC.
 Set Implicit Arguments.
 Unset Strict Implicit.
 Unset Printing Implicit Defensive.
@@ -30,3 +31,71 @@ Lemma sym0 k : is_sym (0 : 'M[F]_k).
 Proof. by rewrite /is_sym trmx0. Qed.
 
 End Sym.
+
+(* ------------------------------------------------------------------ *)
+(* row selection (by mask / by row numbers) is a row-wise linear map   *)
+(* ------------------------------------------------------------------ *)
+Section RowSelection.
+Variable F : fieldType.
+
+(* rows picked by a partial index function *)
+Definition pick_rows q m k (g : nat -> option 'I_m) (A : 'M[F]_(m, k)) : 'M[F]_(q, k) :=
+  \matrix_(i, j) (if g i is Some r then A r j else 0).
+
+Lemma nth_map_ohead (T U : Type) (x0 : U) (f : T -> U) (s : seq T) i :
+  nth x0 [seq f y | y <- s] i = if ohead (drop i s) is Some y then f y else x0.
+Proof. by elim: s i => [|y s IH] [|i] //=. Qed.
+
+Definition sel_ord (msk : seq bool) m (i : nat) : option 'I_m := ohead (drop i (mask msk (enum 'I_m))).
+Definition idx_ord (idx : seq nat) m (i : nat) : option 'I_m := ohead (drop (nth 0%N idx i) (enum 'I_m)).
+
+Lemma mc_selE m k msk (A : 'M[F]_(m, k)) : mc_sel msk A = pick_rows _ (sel_ord msk m) A.
+Proof.
+apply/matrixP=> i j; rewrite !mxE /rows_of -map_mask nth_map_ohead /sel_ord.
+by case: (ohead _) => [r|]; rewrite !mxE.
+Qed.
+
+Lemma mc_rowsE m k idx (A : 'M[F]_(m, k)) : mc_rows idx A = pick_rows _ (idx_ord idx m) A.
+Proof.
+apply/matrixP=> i j; rewrite !mxE /rows_of nth_map_ohead /idx_ord.
+by case: (ohead _) => [r|]; rewrite !mxE.
+Qed.
+
+Lemma pick_rows_mul q m k l g (A : 'M[F]_(m, k)) (B : 'M[F]_(k, l)) :
+  pick_rows q g (A *m B) = pick_rows q g A *m B.
+Proof.
+apply/matrixP=> i j; rewrite !mxE; case E: (g i) => [r|].
+  by rewrite !mxE; apply: eq_bigr => t _; rewrite !mxE E.
+by rewrite big1 // => t _; rewrite !mxE E mul0r.
+Qed.
+
+Lemma pick_rows_add q m k g (A B : 'M[F]_(m, k)) :
+  pick_rows q g (A + B) = pick_rows q g A + pick_rows q g B.
+Proof. by apply/matrixP=> i j; rewrite !mxE; case: (g i) => [r|]; rewrite ?mxE ?addr0. Qed.
+
+Lemma pick_rows_sub q m k g (A B : 'M[F]_(m, k)) :
+  pick_rows q g (A - B) = pick_rows q g A - pick_rows q g B.
+Proof. by apply/matrixP=> i j; rewrite !mxE; case: (g i) => [r|]; rewrite ?mxE ?subr0. Qed.
+
+Lemma mc_sel_mul m k l msk (A : 'M[F]_(m, k)) (B : 'M[F]_(k, l)) : mc_sel msk (A *m B) = mc_sel msk A *m B.
+Proof. by rewrite !mc_selE pick_rows_mul. Qed.
+Lemma mc_sel_add m k msk (A B : 'M[F]_(m, k)) : mc_sel msk (A + B) = mc_sel msk A + mc_sel msk B.
+Proof. by rewrite !mc_selE pick_rows_add. Qed.
+Lemma mc_sel_sub m k msk (A B : 'M[F]_(m, k)) : mc_sel msk (A - B) = mc_sel msk A - mc_sel msk B.
+Proof. by rewrite !mc_selE pick_rows_sub. Qed.
+Lemma mc_rows_mul m k l idx (A : 'M[F]_(m, k)) (B : 'M[F]_(k, l)) : mc_rows idx (A *m B) = mc_rows idx A *m B.
+Proof. by rewrite !mc_rowsE pick_rows_mul. Qed.
+Lemma mc_rows_sub m k idx (A B : 'M[F]_(m, k)) : mc_rows idx (A - B) = mc_rows idx A - mc_rows idx B.
+Proof. by rewrite !mc_rowsE pick_rows_sub. Qed.
+
+(* entry i of the selection is entry idx[i] of the matrix *)
+Lemma mc_rows_entry m k idx (A : 'M[F]_(m, k)) (i : 'I_(length idx)) (r : 'I_m) j :
+  nth 0%N idx i = r -> mc_rows idx A i j = A r j.
+Proof.
+move=> E; rewrite mc_rowsE !mxE /idx_ord E.
+have -> : ohead (drop r (enum 'I_m)) = Some r; last by [].
+rewrite -[r in drop r]/(nat_of_ord r) (drop_nth r) ?size_enum_ord //=.
+by rewrite nth_ord_enum.
+Qed.
+
+End RowSelection.
